@@ -689,17 +689,22 @@ func pureTextFn(c *core.Ctx, fn *ssa.Function, depth int) bool {
 			return v.(bool)
 		}
 	}
-	ok := pureTextBody(c, fn, depth)
+	ok := pureTextBody(c, fn, depth, map[*ssa.Function]bool{})
 	if depth == 0 {
 		c.Memo.Store(key, ok)
 	}
 	return ok
 }
 
-func pureTextBody(c *core.Ctx, fn *ssa.Function, depth int) bool {
-	if fn.Blocks == nil || depth > 4 {
+func pureTextBody(c *core.Ctx, fn *ssa.Function, depth int, onStack map[*ssa.Function]bool) bool {
+	if onStack[fn] {
+		return true // a recursive call: judged where the function is first entered
+	}
+	if fn.Blocks == nil || depth > 6 {
 		return false
 	}
+	onStack[fn] = true
+	defer delete(onStack, fn)
 	if depth == 0 {
 		res := fn.Signature.Results()
 		if res.Len() != 1 {
@@ -740,7 +745,7 @@ func pureTextBody(c *core.Ctx, fn *ssa.Function, depth int) bool {
 					return false
 				}
 				if c.InScope(cal) {
-					if !pureTextBody(c, cal, depth+1) {
+					if !pureTextBody(c, cal, depth+1, onStack) {
 						return false
 					}
 					continue
